@@ -76,6 +76,19 @@ Cat ==
   \cup {<<TPtr(TNamed(id)), x>> : id \in {"ZeroT", "FoldT", "RegT", "RegObj"}, x \in {VNil("ptr"), VPtr(VStruct(<<Leaf(tInt, 1)>>))}}
   \cup {<<TSlice(TNamed(id)), VSlice(<<VStruct(<<Leaf(tInt, 1)>>)>>)>> : id \in {"RegT", "FoldObj"}}
 
+\* ---- systematic nestings: every composition of two and three of {pointer, slice, map} over a scalar, a string and a
+\* struct, each with a value that is filled down to the leaf and one that is nil at its innermost constructor
+Ctors == {"ptr", "slice", "map"}
+Wrap(cn, t) == CASE cn = "ptr" -> TPtr(t) [] cn = "slice" -> TSlice(t) [] OTHER -> TMap(t)
+WrapV(cn, x) == CASE cn = "ptr" -> VPtr(x) [] cn = "slice" -> VSlice(<<x>>) [] OTHER -> VMap(<<KV(<<107>>, x)>>)
+NestBases == {<<tInt, Leaf(tInt, 1)>>, <<tStr, Leaf(tStr, 1)>>, <<S1, S1Val(1, 1)>>}
+Nest2 ==
+  {<<Wrap(c1, Wrap(c2, b[1])), WrapV(c1, WrapV(c2, b[2]))>> : c1 \in Ctors, c2 \in Ctors, b \in NestBases}
+  \cup {<<Wrap(c1, Wrap(c2, b[1])), WrapV(c1, VNil(c2))>> : c1 \in Ctors, c2 \in Ctors, b \in NestBases}
+Nest3 ==
+  {<<Wrap(c1, Wrap(c2, Wrap(c3, b[1]))), WrapV(c1, WrapV(c2, WrapV(c3, b[2])))>> : c1 \in Ctors, c2 \in Ctors, c3 \in Ctors, b \in NestBases}
+  \cup {<<Wrap(c1, Wrap(c2, Wrap(c3, b[1]))), WrapV(c1, WrapV(c2, VNil(c3)))>> : c1 \in Ctors, c2 \in Ctors, c3 \in Ctors, b \in NestBases}
+
 \* tag variants: [tname, tb, opts]
 Tags ==
   {[tname |-> "", tb |-> <<>>, opts |-> <<>>],
@@ -101,7 +114,11 @@ StructCases ==
        vs == [j \in 1..n |-> IF j = p THEN rf[2] ELSE Leaf(tInt, 1)] IN
    [T |-> TStruct(fs), V |-> VStruct(vs)] : n \in 1..MaxFields, p \in 1..MaxFields, rf \in RichFields}
 \* top-level non-struct values: everything of the catalogue on its own, and refused kinds
-PlainCases == {[T |-> tv[1], V |-> tv[2]] : tv \in Cat}
+NestTags == {[tname |-> "", tb |-> <<>>, opts |-> <<>>], [tname |-> "nm", tb |-> <<110, 109>>, opts |-> <<"omitempty">>]}
+NestFieldCases ==
+  {[T |-> TStruct(<<PoorField(1), [name |-> "Alpha", nb |-> <<65, 108, 112, 104, 97>>, tname |-> tg.tname, tb |-> tg.tb, opts |-> tg.opts, t |-> tv[1]]>>),
+    V |-> VStruct(<<Leaf(tInt, 1), tv[2]>>)] : tg \in NestTags, tv \in Nest2 \cup Nest3}
+PlainCases == {[T |-> tv[1], V |-> tv[2]] : tv \in Cat \cup Nest2 \cup Nest3}
 RefusedCases ==
   {[T |-> TStruct(<<Fld("A", <<65>>, TNamed(id)), PoorField(2)>>), V |-> VStruct(<<V0("opaque"), Leaf(tInt, 1)>>)] :
       id \in {"chan", "func", "complex128", "uintptr", "mapintstr"}}
@@ -118,7 +135,7 @@ PairCases ==
   \cup {[T |-> TStruct(<<FldO("Ya", <<89, 97>>, o1, tv[1]), PoorField(2), FldO("Xb", <<88, 98>>, o2, TSlice(tv[1]))>>),
          V |-> VStruct(<<tv[2], Leaf(tInt, 1), VSlice(<<tv[2]>>)>>)] : tv \in PairTypes, o1 \in PairTags, o2 \in {<<>>, <<"omitempty">>}}
 Cases == PairCases \cup {x \in StructCases : Len(x.T.f) >= 1 /\ \E j \in 1..Len(x.T.f) : x.T.f[j].name \notin {"P", "Q", "R"}}
-         \cup (IF WithTop THEN PlainCases \cup RefusedCases ELSE {})
+         \cup (IF WithTop THEN PlainCases \cup RefusedCases \cup NestFieldCases ELSE {})
 
 Init == c = [T |-> tInt, V |-> V0("start")]
 Next == c.V.k = "start" /\ c' \in Cases
